@@ -114,6 +114,79 @@ pub fn reference_any(n: &Node) -> Option<Val> {
     }
 }
 
+/// Structured family of key pairs: keys that differ in exactly one leaf (at every depth and inside
+/// sequences / mappings nested in the key) must NOT be duplicates; keys that are equal up to style
+/// and anchors must be.  Each document is a one-line flow mapping {k1 : v1, k2 : v2, z : 0}.
+fn key_pair_family() -> Vec<(Node, bool)> {
+    let p = |t: &str| Node::plain(t);
+    let q = |t: &str| Node::Scalar { text: t.to_string(), sty: Sty::Double, tag: None, anchor: None };
+    let seq = |items: Vec<Node>| Node::Seq { items, flow: true, tag: None, anchor: None };
+    let map = |entries: Vec<(Node, Node)>| Node::Map { entries, flow: true, anchor: None };
+    let bases: Vec<Node> = vec![
+        p("a"),
+        seq(vec![p("1"), p("2")]),
+        seq(vec![seq(vec![p("1"), p("2")]), p("x")]),
+        seq(vec![p("x"), seq(vec![p("1"), seq(vec![p("2"), p("3")])])]),
+        seq(vec![map(vec![(p("m"), p("1"))]), p("x")]),
+        map(vec![(p("m"), p("1")), (p("n"), p("2"))]),
+        map(vec![(p("m"), seq(vec![p("1"), p("2")]))]),
+        map(vec![(seq(vec![p("1"), p("2")]), p("v"))]),
+        map(vec![(p("m"), map(vec![(p("i"), seq(vec![p("1")]))]))]),
+        seq(vec![seq(vec![]), seq(vec![seq(vec![])])]),
+    ];
+    fn leaves(n: &Node) -> usize {
+        match n {
+            Node::Seq { items, .. } => items.iter().map(leaves).sum(),
+            Node::Map { entries, .. } => entries.iter().map(|(k, v)| leaves(k) + leaves(v)).sum(),
+            _ => 1,
+        }
+    }
+    fn change_leaf(n: &Node, idx: &mut isize) -> Node {
+        match n {
+            Node::Seq { items, flow, tag, anchor } => Node::Seq { items: items.iter().map(|i| change_leaf(i, idx)).collect(), flow: *flow, tag: tag.clone(), anchor: anchor.clone() },
+            Node::Map { entries, flow, anchor } => Node::Map { entries: entries.iter().map(|(k, v)| (change_leaf(k, idx), change_leaf(v, idx))).collect(), flow: *flow, anchor: anchor.clone() },
+            Node::Scalar { text, sty, tag, anchor } => {
+                *idx -= 1;
+                if *idx == -1 { Node::Scalar { text: format!("{text}9"), sty: *sty, tag: tag.clone(), anchor: anchor.clone() } } else { n.clone() }
+            }
+            other => other.clone(),
+        }
+    }
+    fn restyle(n: &Node) -> Node {
+        match n {
+            Node::Seq { items, tag, .. } => Node::Seq { items: items.iter().map(restyle).collect(), flow: true, tag: tag.clone(), anchor: Some("r".into()) },
+            Node::Map { entries, .. } => Node::Map { entries: entries.iter().map(|(k, v)| (restyle(k), restyle(v))).collect(), flow: true, anchor: None },
+            Node::Scalar { text, tag, .. } => Node::Scalar { text: text.clone(), sty: Sty::Single, tag: tag.clone(), anchor: None },
+            other => other.clone(),
+        }
+    }
+    let mut out = Vec::new();
+    for b in &bases {
+        // same key, different style / anchors
+        out.push((map(vec![(b.clone(), p("first")), (restyle(b), q("second")), (p("z"), p("0"))]), true));
+        // one leaf changed, for every leaf
+        for i in 0..leaves(b) {
+            let mut idx = i as isize;
+            let other = change_leaf(b, &mut idx);
+            out.push((map(vec![(b.clone(), p("first")), (other, q("second")), (p("z"), p("0"))]), false));
+        }
+        // an element more / a different container kind
+        if let Node::Seq { items, .. } = b {
+            let mut more = items.clone();
+            more.push(p("extra"));
+            out.push((map(vec![(b.clone(), p("first")), (seq(more), q("second"))]), false));
+        }
+    }
+    out
+}
+
+/// 1-based (line, column) in characters of the second occurrence of `needle` in a one-line text
+fn second_occurrence(text: &str, needle: &str) -> Option<(u64, u64)> {
+    let first = text.find(needle)?;
+    let second = text[first + needle.len()..].find(needle)? + first + needle.len();
+    Some((1, text[..second].chars().count() as u64 + 1))
+}
+
 fn targets() -> Vec<Ty> {
     let any = || Box::new(Ty::Any);
     vec![
@@ -147,6 +220,36 @@ pub fn run(ctx: &mut Ctx) {
         cfg.tags = i % 4 == 0;
         let d = docgen::gen_doc(&mut rng, &cfg);
         docs.push((docgen::render_doc(&d), Some(d)));
+    }
+    // structured key pairs: duplicate detection is exact and the error points at the repeated key
+    for (n, is_dup) in key_pair_family() {
+        let text = docgen::render_doc(&n);
+        ctx.direct_evaluations += 1;
+        let replay = json!({"kind": "policies", "text": text});
+        let re = util::no_panic(|| deserk::run(&text, &Ty::Any, &DOpts::new(P::Error)));
+        match (is_dup, &re) {
+            (true, Ok(Err(er))) if crate::coq::variant_name(er) == "DuplicateMappingKey" => {
+                // the repeated key is the second key of the flow mapping: its rendering occurs... the
+                // second key is a restyled copy, so locate it by its own rendering
+                if let Node::Map { entries, .. } = &n {
+                    // a node's position is where its content starts, after any anchor / tag
+                    let mut bare = entries[1].0.clone();
+                    if let Node::Seq { anchor, .. } | Node::Map { anchor, .. } | Node::Scalar { anchor, .. } = &mut bare {
+                        *anchor = None;
+                    }
+                    let ks = docgen::render_flow(&bare);
+                    let want = text.find(&ks).map(|i| (1u64, text[..i].chars().count() as u64 + 1));
+                    let got = er.without_snippet().location().map(|l| (l.line(), l.column()));
+                    if want.is_some() && got != want {
+                        ctx.fail("duplicate-key-location", format!("Error policy on {text:?}: reported at {got:?}, the repeated key starts at {want:?}"), replay.clone());
+                    }
+                }
+            }
+            (true, other) => ctx.fail("error-policy", format!("Error policy on {text:?}: expected DuplicateMappingKey, got {:?}", other.as_ref().map(|r| r.as_ref().map_err(|e| crate::coq::variant_name(e)))), replay.clone()),
+            (false, Ok(Ok(_))) => {}
+            (false, other) => ctx.fail("nodup-policy-differs", format!("keys of {text:?} differ in one leaf but the Error policy gives {:?}", other.as_ref().map(|r| r.as_ref().map_err(|e| crate::coq::variant_name(e)))), replay.clone()),
+        }
+        docs.push((text, Some(n)));
     }
     for (text, node) in &docs {
         let dup = node.as_ref().map(|n| docgen::expand(n).map(|e| has_dup(&e)).unwrap_or(false));
@@ -204,7 +307,7 @@ pub fn run(ctx: &mut Ctx) {
             ctx.fail("last-wins", format!("LastWins on {text:?} gives {:?}, all entries in order are {want_all:?}", rl.as_ref().map_err(|e| crate::coq::variant_name(e))), replay.clone());
         }
     }
-    let _ = Sty::Plain;
+    let _ = (Sty::Plain, second_occurrence("", "x"));
 }
 
 fn replay(ctx: &mut Ctx, r: &serde_json::Value) {
